@@ -213,7 +213,7 @@ def harness(ctx):
     exe, log = ctx.cc('h_ring', [os.path.join(vlib.VERIF, 'harness/h_ring.c'), R + '/librfn/ringbuf.c'],
                       ['-I' + os.path.join(vlib.VERIF, 'harness/shim'), '-D_GNU_SOURCE', '-pthread'])
     if not exe:
-        raise vlib.Infra('ring harness does not compile against the library sources: ' + log[-1500:])
+        raise vlib.Unbuildable('ring harness does not compile against the library sources: ' + log[-1500:])
     return exe
 
 
